@@ -1036,7 +1036,7 @@ VERIF_FAIL_PATTERNS = [
     'loop invariant', 'unable to prove', 'possible bit shift underflow/overflow', 'could not prove termination',
     'assertion failure', 'failed precondition', 'cannot show invariant', 'unreachable',
     'constructed value may fail to meet its declared type invariant', 'call to unwrap', 'index out of bounds',
-    'possible', 'termination',
+    'possible', 'termination', 'fails to satisfy',
 ]
 RLIMIT_PATTERNS = ['Resource limit', 'rlimit', 'timed out', 'canceled']
 
